@@ -485,7 +485,7 @@ def run(ctx, chk, tier="quick"):
                         union((ta, pr[2][2]), (tb, pr[3][2]))
             # IN (SELECT epoch FROM grid_time WHERE data_interval = ?) restricts, and ties the instant to grid_time
             for pr in preds:
-                if pr[0] == "in" and pr[1][0] == "col" and len(pr[2]) == 1 and pr[2][0][0] == "subq":
+                if pr[0] in ("in", "inlist") and pr[1][0] == "col" and len(pr[2]) == 1 and pr[2][0][0] == "subq":
                     q_ = pr[2][0][1]
                     if len(q_.columns) == 1 and q_.columns[0][0][0] == "col" and len(q_.sources) == 1 and q_.sources[0].table == "grid_time":
                         ta = owner(pr[1][1], pr[1][2])
